@@ -40,11 +40,11 @@ macro_rules! c14_frame {
         #[kani::stub(crate::utils::ziggurat, c_ziggurat)]
         #[kani::unwind($unw)]
         fn $name() {
+            let mut rng = SymRng::new($limit); // all symbolic inputs are drawn first (replay alignment)
             let d: $ty = match $mk {
                 Ok(d) => d,
                 Err(_) => return,
             };
-            let mut rng = SymRng::new($limit);
             let _ = $wrap(&d, &mut rng);
             kani::cover!(rng.pos >= 1, "sample returned after drawing");
         }
